@@ -594,6 +594,20 @@ def _moves_safe(arm, order):
             if k == 'mcall' and e['name'] == 'copy_within':
                 do_copy_within(e)
                 continue
+            if k == 'if':
+                # `if index > old_index { .. } else if index < old_index { .. }` instead of `match index.cmp(&old_index)`
+                c = _unwrap_block(e['cond'])
+                if c.get('e') == 'bin' and c['op'] in ('Ne', 'Eq', 'Gt', 'Lt', 'Ge', 'Le'):
+                    a_, b_ = ev.var_of(c['a']), ev.var_of(c['b'])
+                    t_ = ev.cmp_truth(c['op'], a_, b_) if a_ and b_ else None
+                    if t_ is None:
+                        raise Undecided('branch on an undecided condition')
+                    if t_:
+                        run(e['then'])
+                    elif e.get('else'):
+                        run(e['else'])
+                    continue
+                raise Undecided('if condition')
             if k == 'assign' and _unwrap_block(e['lhs']).get('e') == 'index':
                 lhs = _unwrap_block(e['lhs'])
                 stores.append((ev.ev(lhs['idx']), _canon_hir(_strip_autoref(lhs['base'])), _canon_hir(e['rhs'])))
